@@ -424,14 +424,14 @@ int main(int argc, char** argv)
     harness_init(argv[4], argv[5], seed); g_trace = getenv("STRM_TRACE") != NULL;
     dictbuf = xalloc(70000); gen_data(dictbuf, 70000, D_LZLIKE);
     g_hist = xalloc(65536 + 8); g_ringSize = (size_t)LZ4_decoderRingBufferSize(MAXBLOCK); g_ring = xalloc(g_ringSize);
-    nh = thorough ? 4000 : 300;
+    nh = thorough ? SH(4000) : 300;
     for (i = 0; i < nh; i++) run_history(i % 2, 20 + (int)rndn(40), mode, dictbuf);
-    if (!strcmp(mode, "c11")) for (i = 0; i < (thorough ? 3000 : 200); i++) ring_restart_scenario(i % 4 == 3);
-    if (!strcmp(mode, "c11")) { int reps = thorough ? 3 : 1; while (reps--) long_stream_renorm_scenario(); }
-    if (!strcmp(mode, "c18")) long_stream_renorm_scenario_x(1);
-    if (!strcmp(mode, "c11")) { long_stream_renorm_scenario_hc(thorough ? 2 : 3); if (thorough) { long_stream_renorm_scenario_hc(3); long_stream_renorm_scenario_hc(9); } }
-    if (!strcmp(mode, "c18")) for (i = 0; i < (thorough ? 20000 : 1500); i++) fastreset_history();
-    if (!strcmp(mode, "c11") || !strcmp(mode, "c18")) for (i = 0; i < (thorough ? 8000 : 700); i++) contig_stream_history(thorough);
+    if (!strcmp(mode, "c11")) for (i = 0; i < (thorough ? SH(3000) : 200); i++) ring_restart_scenario(i % 4 == 3);
+    if (!strcmp(mode, "c11")) { int reps = thorough ? 3 : 1, q; for (q = 0; q < reps; q++) if (SHARD_IS(q)) long_stream_renorm_scenario(); }
+    if (!strcmp(mode, "c18") && SHARD_IS(1)) long_stream_renorm_scenario_x(1);
+    if (!strcmp(mode, "c11")) { if (SHARD_IS(3)) long_stream_renorm_scenario_hc(thorough ? 2 : 3); if (thorough) { if (SHARD_IS(4)) long_stream_renorm_scenario_hc(3); if (SHARD_IS(5)) long_stream_renorm_scenario_hc(9); } }
+    if (!strcmp(mode, "c18")) for (i = 0; i < (thorough ? SH(20000) : 1500); i++) fastreset_history();
+    if (!strcmp(mode, "c11") || !strcmp(mode, "c18")) for (i = 0; i < (thorough ? SH(8000) : 700); i++) contig_stream_history(thorough);
     harness_done();
     stat_u("calls", n_calls); stat_u("blocks_checked", n_blocks); stat_u("limited_output_failures", n_fail_ret0); stat_u("saveDict", n_saves); stat_u("loadDict", n_loads); stat_u("attach", n_attach);
     stat_u("resets", n_resets); stat_u("fastReset_oneshots", n_oneshots); stat_u("continue_destSize", n_destsize); stat_u("ring_wraps", n_wraps); stat_u("streams_beyond_2GiB", n_renorm); stat_u("fastReset_histories", n_fr_hist); stat_u("contiguous_stream_sessions", n_cs_hist); stat_u("contiguous_stream_calls", n_cs_calls); stat_u("contiguous_stream_sessions_on_reused_stream", n_cs_reused); stat_u("contiguous_stream_sessions_starting_with_stale_table", n_cs_stale); stat_u("contiguous_stream_sessions_ended_by_failure", n_cs_failed); stat_u("fastReset_history_calls", n_fr_calls); stat_u("records", g_nrecords);
